@@ -316,7 +316,24 @@ func genC08Input(t *rapid.T) (src string, origin string) {
 		if cut == 0 {
 			closers = d
 		}
-		switch rapid.IntRange(0, 9).Draw(t, "nestkind") {
+		switch rapid.IntRange(0, 11).Draw(t, "nestkind") {
+		case 10, 11:
+			// a chain of definitions, each using the previous one twice (with or without
+			// a predicate): the program must stay linear in the length of the chain
+			var b strings.Builder
+			pred := ""
+			if rapid.Bool().Draw(t, "chainpred") {
+				pred = " begin return matchLength > 0 end"
+			}
+			levels := d/2 + 8
+			// names without digits (the K3 exclusion multiplies every digit run)
+			name := func(i int) string { return "p" + string(rune('a'+i/26)) + string(rune('a'+i%26)) }
+			b.WriteString("set " + name(0) + " to pattern 'a'" + pred + " ")
+			for i := 1; i <= levels; i++ {
+				fmt.Fprintf(&b, "set %s to pattern %s maybe %s%s ", name(i), name(i-1), name(i-1), pred)
+			}
+			b.WriteString("find all " + name(levels))
+			return b.String(), "deepnest"
 		case 7:
 			// a long left-deep chain of binary operators (cost must stay linear in its length)
 			return "set f to transform return match" + strings.Repeat(" + '-' + match", d/2+12) + " end replace all 'a' with f", "deepnest"
